@@ -49,6 +49,21 @@ def _has(spec, names):
     return "of" in spec and _has(spec["of"], names)
 
 
+def _zero_is_smooth(spec):
+    """True if an exact 0 input cannot sit on a kink: no spline (knots / tail junction can be at 0 or reached from it), no
+    LeakyReLU, no ReLU/ELU conditioner."""
+    t = spec["t"]
+    if t in ("composite", "multiscale"):
+        return all(_zero_is_smooth(p) for p in spec["parts"])
+    if t == "inverse":
+        return _zero_is_smooth(spec["of"])
+    if t in ("leakyrelu", "compositecdf") or t in zoo.FAM_OF:
+        return False
+    if t.startswith(("c_", "ar_")) and spec.get("act", "relu") not in zoo.SMOOTH_ACTS:
+        return False
+    return True
+
+
 def run_case(case):
     from nflows.flows import Flow
     from nflows import distributions as dist
@@ -63,8 +78,7 @@ def run_case(case):
         X, _ = zoo.gen_inputs(b, n, case["seed"] + 2, 0.0, 1.0, dom=case["dom"])
         # an exact 0 is a smooth point of tanh-like maps (LogTanh's kinks are at +-cut) but a knot of identity-initialised
         # splines, the kink of LeakyReLU and possibly of ReLU conditioners: inject it only where the map is smooth there
-        if case["zeros"] and case["dom"] == "R" and not _has(case["spec"], ("leakyrelu",)) and "spline" not in b.tags \
-                and not any("spline" in t for t in b.tags) and b.smooth and _has(case["spec"], ("logtanh", "tanh", "sigmoid", "exp", "paffine", "lu")):
+        if case["zeros"] and case["dom"] == "R" and _zero_is_smooth(case["spec"]):
             X.reshape(n, -1)[0, 0] = 0.0
         C = zoo.gen_context(b, ctxk, n, case["seed"]) if ctxk is not None else None
         target = case["target"]
